@@ -38,8 +38,16 @@ MANIFEST = {
              "token with a lead in the vector, numbered without gaps; the stacked-time map characterised, lhs_row = eqn + n*column a bijection "
              "between (equation, period) and rows, no two entries address the same cell; the terminal spots' running index is k*nq+p and "
              "terminate_jacobian's row selection picks row p of block k of [T; T^2; ...]; create_terminal_jacobian_map pairs matching spots. "
+             "System level, end to end: the matrix assembled from a static map and the stacked AD output has, in the row of equation i and the "
+             "column of its wrt-token, exactly the partial derivative of that equation's residual (systemize_entry_sound: input-level hypotheses "
+             "only), zero in every other cell, and triplet (sparse, duplicates add up) assembly equals dense assignment because no cell is "
+             "addressed twice; the loop over parameter variants is a map with variant locality (output k depends on input variant k only); the "
+             "evaluator object is a state machine whose every observation, for every call history, is the pure function of the guess passed with "
+             "that call (also with a by-value memo under its invariant); terminate_jacobian in matrix form (Jacobian of x -> G(x, Phi x) = "
+             "plain Jacobian + terminal block composed with Phi, Frechet chain rule). "
              "User context functions: the two-sided difference quotient composed with the chain rule is proved exact for polynomials of degree "
-             "<= 2 (one argument, and the two-argument total derivative for bilinear-quadratic functions) and off by exactly eps^2*d for the "
+             "<= 2 (one argument, the two-argument total derivative for bilinear-quadratic functions, and by induction over the argument list any number of "
+             "arguments for separable quadratics) and off by exactly eps^2*d for the "
              "cubic (with the code's step: max(|v|,1)^2*1e-12*|d|). Partial: the model is tied to the code by the translator for the rules and by "
              "exact differential correspondence for the walk, seeds, maps and terminal bookkeeping; IEEE rounding, argument aliasing in the "
              "finite differentiator, function caching, the sparse assembly and the numerical terminal-condition matrices are covered only by the "
